@@ -217,3 +217,37 @@ def check_step_iterator(prop, tier, repo, verif):
     res['wall_s'] = round(time.time() - t0, 1)
     res['checker_cmd'] = 'tools/iterprobe (built against the current tree): %s checks' % m.group(2)
     return res
+
+
+def check_hints(prop, tier, repo, verif):
+    t0 = time.time()
+    mh = 65 if tier == 'thorough' else 34
+    res = {'unit': 'bounded:hint_soundness', 'engine': 'bounded run of the real processor with a DISHONEST host (tools/hintprobe)', 'status': 'ok',
+           'failures': [], 'undecided': [], 'bounded': True,
+           'bound': 'u32clz/ctz/clo/cto (~120 operands x hints 0..%d, 2^32, 2^32+5, p-31, p-1), ilog2 (~75 operands x hints 0..64), u64 div/mod/divmod (8 operand pairs x 12 wrong (q, r) families), ext2inv (4 operands x 3 wrong inverses), mtree_get (path shorter than the depth); a completed run must leave the correct result' % mh}
+    binp, err = build_tool(repo, verif, 'hintprobe')
+    if binp is None:
+        res['status'] = 'undecided'
+        res['undecided'].append('hintprobe does not build against the current tree: ' + err)
+        return res
+    p = subprocess.run([binp, str(mh)], stdout=subprocess.PIPE, stderr=subprocess.PIPE, text=True)
+    m = re.search(r'SUMMARY runs=(\d+) failures=(\d+)', p.stdout)
+    if not m:
+        res['status'] = 'undecided'
+        res['undecided'].append('hintprobe gave no summary (panic?): ' + (p.stdout + p.stderr)[-400:])
+        return res
+    seen = set()
+    for ln in p.stdout.split('\n'):
+        mm = re.match(r'FAIL (\S+) (\S+) (.*)', ln)
+        if not mm or (mm.group(1), mm.group(2)) in seen:
+            continue
+        seen.add((mm.group(1), mm.group(2)))
+        kind = mm.group(2).rstrip(':')
+        res['failures'].append({'obligation': '%s/bounded/hint_soundness#%s:%s' % (prop, mm.group(1), kind), 'message': '%s: %s' % (mm.group(1), kind),
+                                'rendered': ln, 'origins': ['assembly/src/assembler/instruction', 'processor/src/operations/crypto_ops.rs', 'stdlib/asm/math/u64.masm'],
+                                'failing_input': {'case': mm.group(3)[:300], 'cmd': '.cache/target/debug/hintprobe %d' % mh}})
+    if res['failures']:
+        res['status'] = 'fail'
+    res['wall_s'] = round(time.time() - t0, 1)
+    res['checker_cmd'] = 'tools/hintprobe %d (built against the current tree): %s runs' % (mh, m.group(1))
+    return res
